@@ -66,6 +66,33 @@ def run(ctx, idx):
             ctx.violate("C18.a", con, d.module.rel, keyed[0].line, "`%s` compares a cleaned DataType (a type object) with its name: the %s check can never run" % (keyed[0].text(), err))
         else:
             ctx.hold("C18.a", con, d.module.rel, raw[0].line, "`%s` tests the raw type name" % raw[0].text()[:70])
+            if err == "InvalidPositiveData":
+                # the sign is tested on the values as read: after the cast to an unsigned type a negative value has already wrapped
+                recv = []
+                direct_conv = []
+                for t in tests:
+                    for c in ast.walk(t.ast):
+                        if isinstance(c, ast.Call) and isinstance(c.func, ast.Attribute) and c.func.attr in ("min", "max", "any", "all") and isinstance(c.func.value, ast.Name):
+                            recv.append((c.func.value.id, c))
+                        if isinstance(c, ast.Call) and isinstance(c.func, ast.Attribute) and c.func.attr in ("min", "max", "any", "all") and isinstance(c.func.value, ast.Call):
+                            inner = c.func.value
+                            if any(k.arg == "dtype" for k in inner.keywords) or (isinstance(inner.func, ast.Attribute) and inner.func.attr == "astype"):
+                                recv.append(("<converted>", c))
+                                direct_conv.append(("the converted array", c, ast.Assign(targets=[], value=inner)))
+                        if isinstance(c, ast.Compare) and isinstance(c.left, ast.Name) and any(isinstance(o, (ast.Lt, ast.LtE, ast.Gt, ast.GtE)) for o in c.ops):
+                            recv.append((c.left.id, c))
+                conv = list(direct_conv)
+                for nm, c in recv:
+                    for n_ in own_nodes(fi.node):
+                        if isinstance(n_, ast.Assign) and any(isinstance(tg, ast.Name) and tg.id == nm for tg in n_.targets) and isinstance(n_.value, ast.Call):
+                            if any(k.arg == "dtype" for k in n_.value.keywords) or (isinstance(n_.value.func, ast.Attribute) and n_.value.func.attr == "astype"):
+                                conv.append((nm, c, n_))
+                con2 = "%s.execute::positive-check-on-file-values" % d.key
+                if not recv:
+                    raise AnalysisError("C18.a: the value tested by the positive-data check was not found")
+                ctx.ob("C18.a", con2, d.module.rel, (conv[0][1] if conv else recv[0][1]).lineno, not conv,
+                       "the sign test reads the values as they come from the file" if not conv else
+                       "the sign test reads `%s`, which has already been converted (`%s`): for Positive Integer the cast to an unsigned type wraps negative values to huge positive ones, so the check can never fire" % (conv[0][0], K.src(conv[0][2].value)[:50]))
     # ---- b
     n_t = 0
     for key in (rd, wr):
@@ -93,6 +120,7 @@ def run(ctx, idx):
            "mask = (data == %s) | file mask, stored on the returned array" % miss[0] if ok and eq else (
                "cells are marked missing by a `%s` comparison with `%s`, not by equality: valid cells merely close to the missing value are reported missing" % ("/".join(ops), miss[0]) if ok else
                "the MissingValue mask is not stored on the returned array"))
+    R.zero_is_a_value(ctx, "C18.d", d, r)
     # ---- d (write)
     d, r = wr
     fi = d.execute
@@ -106,6 +134,7 @@ def run(ctx, idx):
         missm = want - v.M if v.kind == "masked" else want
         ctx.ob("C18.d", con, d.module.rel, line, not missm, "stored value's mask covers every written result (%s)" % R.tok_text(v.M) if not missm else
                "the mask written with each variable does not cover the missing cells of %s: a cell missing in one result is written as valid in the others" % R.tok_text(missm))
+    R.leaves_inputs_alone(ctx, "C18.d", d, r, "the union of missing cells is accumulated inside the first result itself, so that result carries the other results' missing cells from then on and any later write of it stores cells as missing that never were")
     cv = [n for n in own_nodes(fi.node) if isinstance(n, ast.Call) and isinstance(n.func, ast.Attribute) and n.func.attr == "createVariable" and any(k.arg == "fill_value" for k in n.keywords)]
     con = "%s.execute::variable-type-and-fill" % d.key
     if not cv:
